@@ -215,8 +215,8 @@ template <class A> static int run(int argc, char** argv) {
             TR.begin_exec();
             Sched S; S.stall_limit = 20000;
             S.spawn(N, [&](int t) { body(a, t, held); });
-            static const int dens[4] = {1, 3, 10, 40};
-            int rc = S.run_random(seed0 + r, 2000000, dens[r % 4]);
+            static const int dens[8] = {1, 3, 10, 40, -1, -2, -3, -5};
+            int rc = S.run_random(seed0 + r, 2000000, dens[r % 8]);
             ++st.paths; st.steps += S.steps;
             if (rc != RC_OK) { ++st.stuck; TR.emit("{\"e\":\"Stuck\",\"rc\":\"%s\",\"seed\":%lu}", rc_name(rc).c_str(), seed0 + r); }
             S.join_all();
